@@ -1122,9 +1122,22 @@ async fn run_e2e(mut case: Vec<u64>) -> (Vec<u64>, Vec<u64>) {
     // afterwards: can the peer be dialed again?
     for (node, peer) in [(&a, b.peer), (&b, a.peer)] {
         if node.alive() {
-            let (tx, rx) = oneshot::channel();
-            let _ = node.ctl.send(Ctl::DialPeer(peer, tx));
-            tr.push(ask(rx).await.unwrap_or(8));
+            // AlreadyConnected right after the last step can be the close that is still on its way to the
+            // manager (seen under machine load): the question is whether the peer STAYS undialable, so the
+            // answer is taken again a few times before it is believed
+            let mut code = 8;
+            for attempt in 0..12 {
+                let (tx, rx) = oneshot::channel();
+                let _ = node.ctl.send(Ctl::DialPeer(peer, tx));
+                code = ask(rx).await.unwrap_or(8);
+                if code != 3 {
+                    break;
+                }
+                if attempt < 11 {
+                    tokio::time::sleep(std::time::Duration::from_millis(30)).await;
+                }
+            }
+            tr.push(code);
         } else {
             tr.push(7);
         }
